@@ -64,7 +64,8 @@ TOKENS: list[bytes] = [
     b"_\r\n", b"\"\"", b"ZHVjaw==", b"aGVsbG8gd29ybGQgaGVsbG8gd29ybGQ=", b"QUJDREVGR0hJSktMTU5PUFFSU1RVVldYWVo=",
     b"68656c6c6f20776f726c6421212121", b"48454C4C4F20574F524C4421212121", b"12345678901234567890", b"ABCDEF",
     b"abcdef", b"deadbeef", b"=", b"==", b"user@example.com", b"ersion ", b"section ", b"<t>", b"sh -c \"",
-    b"\"bash -i\"", b"this.", b"\xff", b"\x80", b"\xe9", b"\x7f", b"\x1b",
+    b"\"bash -i\"", b"this.", b"\xff", b"\x80", b"\xe9", b"\x7f", b"\x1b", "\u0130".encode(), "\u212a".encode(), "\u00df".encode(),
+    "\ufb01".encode(), "\u023a".encode(), b"\xef\xbb\xbf", b"\xc2\x85", b"\xe2\x80\xa8", b"\x0b", b"\x0c", b"\x1c", b"\x85",
 ]
 
 
